@@ -54,6 +54,10 @@ func drawTracks(t *rapid.T, p Profile, variant int) []TrackSpec {
 			v.Params = rapid.SampledFrom([]int{0, 0, 1, 2}).Draw(t, "h265set")
 		default:
 			v.Params = rapid.IntRange(0, NumParamSets(codec)-1).Draw(t, "vparams")
+			if codec == "h264" && !p.ConstantLL && rapid.IntRange(0, 3).Draw(t, "h264reorder") == 0 {
+				// reorder family: decode times derived from picture order counts (dts != pts)
+				v.Params = H264ReorderBase + rapid.IntRange(0, NumH264ReorderSets-1).Draw(t, "h264reorderSet")
+			}
 		}
 		video = &v
 	}
@@ -175,7 +179,8 @@ func DrawScript(t *rapid.T, p Profile) Script {
 		// the 100-write rule of audio-only MPEG-TS needs long scripts to complete segments
 		nLead = rapid.IntRange(150, 460).Draw(t, "nLeadAudioTS")
 	}
-	half := p.HalfSecond && leadSpec.IsVideo() && rapid.IntRange(0, 5).Draw(t, "half") == 0
+	reorderLead := leadSpec.Codec == "h264" && IsH264Reorder(leadSpec.Params)
+	half := p.HalfSecond && leadSpec.IsVideo() && !reorderLead && rapid.IntRange(0, 5).Draw(t, "half") == 0
 	start := rapid.OneOf(
 		rapid.Int64Range(0, 10*leadRate),
 		rapid.Int64Range(-10*leadRate, 0),
@@ -233,6 +238,14 @@ func DrawScript(t *rapid.T, p Profile) Script {
 			ts := start
 			curSet := spec.Params
 			timingFlavor := spec.Codec == "h265" && spec.Params == 1
+			reorder := spec.Codec == "h264" && IsH264Reorder(spec.Params)
+			bDepth := int64(0)
+			if reorder {
+				bDepth = rapid.Int64Range(0, 2).Draw(t, "bFrames")
+			}
+			var gopBase, gopIdx, maxDisp int64
+			gopStarted := false
+			gopBase = ts
 			first := true
 			sinceRA := int64(0)
 			pendingChange := false
@@ -261,7 +274,9 @@ func DrawScript(t *rapid.T, p Profile) Script {
 					change := !timingFlavor && !first && p.ParamRate > 0 && rapid.IntRange(0, 99).Draw(t, "change") < p.ParamRate
 					if change {
 						n := NumParamSets(spec.Codec)
-						if spec.Codec == "h265" {
+						if reorder {
+							curSet = H264ReorderBase + (curSet-H264ReorderBase+1+rapid.IntRange(0, NumH264ReorderSets-2).Draw(t, "newSetR"))%NumH264ReorderSets
+						} else if spec.Codec == "h265" {
 							// stay among the dts=pts sets
 							if curSet == 0 {
 								curSet = 2
@@ -283,7 +298,7 @@ func DrawScript(t *rapid.T, p Profile) Script {
 					sinceRA++
 					if first {
 						// before the first random access unit: still counts as not started
-					} else if !timingFlavor && p.ParamRate > 0 && (spec.Codec == "h264" || spec.Codec == "h265") && rapid.IntRange(0, 399).Draw(t, "interChange") < p.ParamRate {
+					} else if !timingFlavor && !reorder && p.ParamRate > 0 && (spec.Codec == "h264" || spec.Codec == "h265") && rapid.IntRange(0, 399).Draw(t, "interChange") < p.ParamRate {
 						// parameters changed on a non random access unit or on a parameter-only unit
 						if spec.Codec == "h265" {
 							if curSet == 0 {
@@ -300,7 +315,7 @@ func DrawScript(t *rapid.T, p Profile) Script {
 						if spec.Codec == "h264" && rapid.Bool().Draw(t, "paramOnly") {
 							op.Kind = KindParamOnly
 						}
-					} else if spec.Codec == "h264" && rapid.IntRange(0, 40).Draw(t, "sei") == 0 {
+					} else if spec.Codec == "h264" && !reorder && rapid.IntRange(0, 40).Draw(t, "sei") == 0 {
 						op.Kind = KindSEI
 					}
 				}
@@ -311,12 +326,51 @@ func DrawScript(t *rapid.T, p Profile) Script {
 						op.Tmpl = 2 + rapid.IntRange(0, 3).Draw(t, "tmpl")
 					}
 				}
-				op.NTP = ntpBase + (ts-start)*1_000_000_000/rate + rapid.Int64Range(-3_000_000, 3_000_000).Draw(t, "skew")
+				if reorder {
+					// ts is the decode slot; the written time stamp is the presentation time of the
+					// frame's display slot inside its group of pictures (I P B B P B B ... in decode
+					// order shown as I B B P B B P ...). Frames last frameTicks each.
+					var disp int64
+					kind := 1
+					switch {
+					case op.Kind == KindRA:
+						if gopStarted {
+							gopBase = maxI64(ts, gopBase+(maxDisp+1)*frameTicks)
+						} else {
+							gopBase = ts
+						}
+						gopStarted, gopIdx, maxDisp = true, 0, 0
+						ts = gopBase
+						kind = 0
+					case !gopStarted:
+						// before the first random access unit: P frames in display order
+						gopBase = ts
+					default:
+						gopIdx++
+						g, pos := (gopIdx-1)/(bDepth+1), (gopIdx-1)%(bDepth+1)
+						if pos == 0 {
+							disp = (g + 1) * (bDepth + 1)
+						} else {
+							disp = g*(bDepth+1) + pos
+							kind = 2
+						}
+						if disp > maxDisp {
+							maxDisp = disp
+						}
+					}
+					op.TS = gopBase + disp*frameTicks
+					op.Tmpl = 1 + (int(2*disp)<<2 | kind)
+				}
+				op.NTP = ntpBase + (op.TS-start)*1_000_000_000/rate + rapid.Int64Range(-3_000_000, 3_000_000).Draw(t, "skew")
 				ops = append(ops, timedOp{op: op, media: float64(ts-start) / float64(rate)})
 				if op.Kind == KindParamOnly || op.Kind == KindSEI {
 					continue // carries no picture: does not advance time
 				}
-				ts += drawDur(t, durMode, frameTicks, rate)
+				if reorder {
+					ts += frameTicks
+				} else {
+					ts += drawDur(t, durMode, frameTicks, rate)
+				}
 			}
 		} else {
 			// audio
